@@ -107,7 +107,7 @@ func init() {
 			return c02QuickA + c02QuickB + c02QuickC
 		},
 		Run: runC02,
-		Rule: "part (a): case = one file whose size is drawn from the boundary set {1,c-1,c,c+1,2c-1,2c,2c+1,kc,kc+-1} for chunk size c in {1,2,7,16,1024}; the repository's client-side BuildTree and an independent tree builder must give the same root and proofs; on chain the honest holder proves 10-14 times, each in a fresh block after 0-3 unrelated transactions (so the height+block-gas challenge seed varies); oracle: every challenge read through the Proof query designates an existing chunk and the honest proof for it returns Success=true. " +
+		Rule: "part (a): case = one file whose size is drawn from the boundary set {1,c-1,c,c+1,2c-1,2c,2c+1,kc,kc+-1} for chunk size c in {1,2,7,16,1024,16384}; the repository's client-side BuildTree and an independent tree builder must give the same root and proofs; on chain the honest holder proves 10-14 times, each in a fresh block after 0-3 unrelated transactions (so the height+block-gas challenge seed varies); oracle: every challenge read through the Proof query designates an existing chunk and the honest proof for it returns Success=true. " +
 			"part (b): case = one schedule (proof window W in 2..7, reward interval C in 2..9, file start phase mod C, offset of the single honest proof inside each of 4 consecutive windows; all offsets for W<=4, else {first, middle, last, block before / at the first reward height}); a second honest prover joins in window 2; oracle after every reward BeginBlock: both provers still listed, their providers' burn counters unchanged, every proof accepted. quick = PRNG sample of the schedule space, thorough = the whole space (exhaustive for that bound). " +
 			"part (c): case = W in 2..9, C in 2..9, file kind in {plan-paid, paid-once posted by transaction, paid-once seeded in genesis with expiry height 4..4+3W (the run continues for 7 windows, i.e. past the expiry), plan-paid posted, proven by prover 1 and posted again in the same block}; prover 1 joins in window 0, prover 2 in window 0..2, and both prove once per window at PRNG offsets through window 6; same oracle as (b). " +
 			"non-trivial signature: (a) (chunk size, size class, saw non-zero challenge); (b) the schedule tuple; (c) (kind, W, C, join windows, run passed the expiry height)",
@@ -149,8 +149,12 @@ func runC02(rc *RunCtx) {
 }
 
 func runC02a(rc *RunCtx) {
-	chunk := []int64{1, 2, 7, 16, 1024}[rc.Intn(5)]
+	// chunk size is a governance parameter (any value >= 1): also one well above the default and above 10 KiB
+	chunk := []int64{1, 2, 7, 16, 1024, 16384}[rc.Intn(6)]
 	k := int64(3 + rc.Intn(38))
+	if chunk > 1024 {
+		k = int64(2 + rc.Intn(5))
+	}
 	cands := []int64{1, chunk - 1, chunk, chunk + 1, 2*chunk - 1, 2 * chunk, 2*chunk + 1, k * chunk, k*chunk - 1, k*chunk + 1}
 	var sizes []int64
 	for _, s := range cands {
@@ -160,7 +164,7 @@ func runC02a(rc *RunCtx) {
 	}
 	size := sizes[rc.Intn(len(sizes))]
 	if rc.Chance(0.15) {
-		size = int64(1 + rc.Intn(int(40*chunk)))
+		size = int64(1 + rc.Intn(int(k*chunk)))
 	}
 	if chunk == 1 && size > 64 {
 		size = int64(1 + rc.Intn(64))
